@@ -320,9 +320,11 @@ func (s *Stream) compileSimpleFieldInfo(fieldSpec string) *fieldProcessInfo {
 	info.hasNestedField = !info.isFunctionCall && fieldpath.IsNestedField(info.fieldName)
 
 	// Check if it's a string literal and preprocess value
+	// one literal: the opening quote character does not occur again before the end ('a(b' == 'x' is a comparison)
 	info.isStringLiteral = (len(info.fieldName) >= 2 &&
-		((info.fieldName[0] == '\'' && info.fieldName[len(info.fieldName)-1] == '\'') ||
-			(info.fieldName[0] == '"' && info.fieldName[len(info.fieldName)-1] == '"')))
+		(info.fieldName[0] == '\'' || info.fieldName[0] == '"') &&
+		info.fieldName[len(info.fieldName)-1] == info.fieldName[0] &&
+		strings.IndexByte(info.fieldName[1:len(info.fieldName)-1], info.fieldName[0]) < 0)
 
 	// Preprocess string literal value, remove quotes
 	if info.isStringLiteral && len(info.fieldName) >= 2 {
